@@ -1,29 +1,15 @@
-import IOptProofs.GklsClass
+import IOptProofs.GklsCert3a
+import IOptProofs.GklsCert3b
 import Mathlib.Tactic.IntervalCases
 /-!
-# Kernel-decided certificates of the 100 regenerated GKLS data sets of dimension 3
-
-`Gkls.Cert 3 k` = well-formedness `WF` + class clauses `ClassOK` + identity (`dim = 3`, `number = k`).
-One lemma per block of ten function numbers (`decide +kernel`: exact integer arithmetic in the kernel).
+# All 100 regenerated GKLS data sets of dimension 3 pass the certificate
 -/
 
 namespace Gkls
-set_option maxRecDepth 100000
-
-theorem cert3_0 : ∀ k ∈ List.range' 1 10, Cert 3 k = true := by decide +kernel
-theorem cert3_1 : ∀ k ∈ List.range' 11 10, Cert 3 k = true := by decide +kernel
-theorem cert3_2 : ∀ k ∈ List.range' 21 10, Cert 3 k = true := by decide +kernel
-theorem cert3_3 : ∀ k ∈ List.range' 31 10, Cert 3 k = true := by decide +kernel
-theorem cert3_4 : ∀ k ∈ List.range' 41 10, Cert 3 k = true := by decide +kernel
-theorem cert3_5 : ∀ k ∈ List.range' 51 10, Cert 3 k = true := by decide +kernel
-theorem cert3_6 : ∀ k ∈ List.range' 61 10, Cert 3 k = true := by decide +kernel
-theorem cert3_7 : ∀ k ∈ List.range' 71 10, Cert 3 k = true := by decide +kernel
-theorem cert3_8 : ∀ k ∈ List.range' 81 10, Cert 3 k = true := by decide +kernel
-theorem cert3_9 : ∀ k ∈ List.range' 91 10, Cert 3 k = true := by decide +kernel
 
 /-- every data set of dimension 3 passes the certificate -/
 theorem cert3 : ∀ k ∈ List.range' 1 100, Cert 3 k = true := by
-  apply range_blocks
+  apply range_blocks5
   intro b hb
   interval_cases b
   · exact cert3_0
@@ -36,5 +22,15 @@ theorem cert3 : ∀ k ∈ List.range' 1 100, Cert 3 k = true := by
   · exact cert3_7
   · exact cert3_8
   · exact cert3_9
+  · exact cert3_10
+  · exact cert3_11
+  · exact cert3_12
+  · exact cert3_13
+  · exact cert3_14
+  · exact cert3_15
+  · exact cert3_16
+  · exact cert3_17
+  · exact cert3_18
+  · exact cert3_19
 
 end Gkls
